@@ -445,7 +445,7 @@ def one_case(seed):
                     crashed.append((f'markers route: run completes ({kw})', f"{type(e).__name__}: {e}"))
             # pair swap: rename the leaves so that the sorted order is reversed
             srt = sorted(case['leaves'])
-            rename = {old: f'z{len(srt) - 1 - i}' for i, old in enumerate(srt)}
+            rename = {old: f'z{len(srt) - 1 - i:03d}' for i, old in enumerate(srt)}
             inv = {v: k for k, v in rename.items()}
             try:
                 sw = run_find(case, wd, 'swap', n_processors=1, rename=rename)
